@@ -196,21 +196,16 @@ public:
               exchange_memory(*this, img);
           } else {
               // cannot propagate the allocator and cannot adopt the memory:
-              // release our storage, copy the pixels with our allocator, release the source
-              destruct_pixels(this->_view);
-              this->deallocate();
-              this->_memory = nullptr;
-              this->_allocated_bytes = 0;
-              this->_view = view_t{};
-              if (img._memory)
-              {
-                  allocate_and_copy(img.dimensions(), img._view);
-                  destruct_pixels(img._view);
-                  img.deallocate();
-                  img._memory = nullptr;
-                  img._allocated_bytes = 0;
-                  img._view = image::view_t{};
-              }
+              // copy the pixels with our allocator first (if that throws nothing has changed),
+              // take the copy over, then release the source
+              image tmp(this->_align_in_bytes, this->_alloc);
+              tmp.allocate_and_copy(img.dimensions(), img._view);
+              this->swap(tmp);
+              destruct_pixels(img._view);
+              img.deallocate();
+              img._memory = nullptr;
+              img._allocated_bytes = 0;
+              img._view = image::view_t{};
           }
       }
 
@@ -391,7 +386,7 @@ private:
             allocate_(dimensions, std::integral_constant<bool, IsPlanar>());
             default_construct_pixels(_view);
         }
-        catch (...) { deallocate(); throw; }
+        catch (...) { release_after_failed_construction(); throw; }
     }
 
     void allocate_and_fill(point_t const& dimensions, Pixel const& p_in)
@@ -401,7 +396,7 @@ private:
             allocate_(dimensions, std::integral_constant<bool, IsPlanar>());
             uninitialized_fill_pixels(_view, p_in);
         }
-        catch(...) { deallocate(); throw; }
+        catch (...) { release_after_failed_construction(); throw; }
     }
 
     template <typename View>
@@ -412,13 +407,23 @@ private:
             allocate_(dimensions, std::integral_constant<bool, IsPlanar>());
             uninitialized_copy_pixels(v, _view);
         }
-        catch(...) { deallocate(); throw; }
+        catch (...) { release_after_failed_construction(); throw; }
     }
 
     void deallocate()
     {
         if (_memory && _allocated_bytes > 0)
             _alloc.deallocate(_memory, _allocated_bytes);
+    }
+
+    // allocate_and_* failed (allocation or element construction): no pixel is alive;
+    // give the block back, if one was obtained, and hold nothing
+    void release_after_failed_construction()
+    {
+        deallocate();
+        _memory = nullptr;
+        _allocated_bytes = 0;
+        _view = view_t();
     }
 
     std::size_t is_planar_impl(
